@@ -115,6 +115,11 @@ func init() {
 				s, ok1 := concBytes(args[0])
 				base, ok2 := concU(args[1])
 				bits, ok3 := concU(args[2])
+				if !ok1 && ok2 && ok3 && base == 16 && !signed {
+					if r, ok := p.parseHexSymbolic(args[0], int(bits)); ok {
+						return r
+					}
+				}
 				if !ok1 && ok2 && ok3 && base == 10 {
 					if r, ok := p.parseDecimalContract(args[0], int(bits), signed); ok {
 						return r
@@ -219,6 +224,10 @@ func (p *Path) decimalContract(v *Term, signed bool) []Value {
 			break
 		}
 	}
+	if k == 1 {
+		// a single digit is determined by the value
+		return append(out, st.Add(st.BV(8, '0'), st.Extract(mag, 7, 0)))
+	}
 	for i := 0; i < k; i++ {
 		d := st.UF(fmt.Sprintf("dig_%d_%d", k, i), 8, mag)
 		lo := uint64('0')
@@ -227,10 +236,6 @@ func (p *Path) decimalContract(v *Term, signed bool) []Value {
 		}
 		p.assume(st.And(st.Cmp(OpUle, st.BV(8, lo), d), st.Cmp(OpUle, d, st.BV(8, '9'))))
 		out = append(out, d)
-	}
-	if k == 1 {
-		// single digit: the digit is determined
-		p.assume(st.Eq(out[len(out)-1].(*Term), st.Add(st.BV(8, '0'), st.Extract(mag, 7, 0))))
 	}
 	return out
 }
@@ -269,14 +274,32 @@ func (p *Path) parseDecimalContract(sv Value, bits int, signed bool) (Value, boo
 		return nil, false
 	}
 	var mag *Term
+	isDig := true
 	for i, b := range bs {
 		if b.Op != OpUF || b.Name != fmt.Sprintf("dig_%d_%d", k, i) || len(b.Args) != 1 {
-			return nil, false
+			isDig = false
+			break
 		}
 		if mag == nil {
 			mag = b.Args[0]
 		} else if !same(mag, b.Args[0]) {
+			isDig = false
+			break
+		}
+	}
+	if !isDig {
+		// arbitrary (partly) symbolic digits: exact positional value for up to 18 digits (no 64-bit overflow possible)
+		if k > 18 {
 			return nil, false
+		}
+		allDigits := st.True
+		mag = st.BV(64, 0)
+		for _, b := range bs {
+			allDigits = st.And(allDigits, st.And(st.Cmp(OpUle, st.BV(8, '0'), b), st.Cmp(OpUle, b, st.BV(8, '9'))))
+			mag = st.Add(st.Bin(OpMul, mag, st.BV(64, 10)), st.ZExt(st.Sub(b, st.BV(8, '0')), 64))
+		}
+		if !p.decide(allDigits) {
+			return Tuple{st.BV(64, 0), p.newErrorString(mkStr("strconv: invalid syntax"))}, true
 		}
 	}
 	if bits == 0 {
@@ -299,6 +322,42 @@ func (p *Path) parseDecimalContract(sv Value, bits int, signed bool) (Value, boo
 	val := mag
 	if neg {
 		val = st.Neg(mag)
+	}
+	return Tuple{val, Iface{}}, true
+}
+
+
+// parseHexSymbolic: strconv.ParseUint(s, 16, bits) on (partly) symbolic text of up to 16 hex digits: exact positional value.
+func (p *Path) parseHexSymbolic(sv Value, bits int) (Value, bool) {
+	st := p.st
+	s, ok := sv.(*Str)
+	if !ok || s.IsArr() {
+		return nil, false
+	}
+	bs := p.strBytes(s)
+	if len(bs) == 0 || len(bs) > 16 {
+		return nil, false
+	}
+	if bits == 0 {
+		bits = 64
+	}
+	all := st.True
+	val := st.BV(64, 0)
+	for _, b := range bs {
+		isDig := st.And(st.Cmp(OpUle, st.BV(8, '0'), b), st.Cmp(OpUle, b, st.BV(8, '9')))
+		isLo := st.And(st.Cmp(OpUle, st.BV(8, 'a'), b), st.Cmp(OpUle, b, st.BV(8, 'f')))
+		isUp := st.And(st.Cmp(OpUle, st.BV(8, 'A'), b), st.Cmp(OpUle, b, st.BV(8, 'F')))
+		all = st.And(all, st.Or(isDig, st.Or(isLo, isUp)))
+		nib := st.Ite(isDig, st.Sub(b, st.BV(8, '0')), st.Ite(isLo, st.Sub(b, st.BV(8, 'a'-10)), st.Sub(b, st.BV(8, 'A'-10))))
+		val = st.Bin(OpBOr, st.Bin(OpShl, val, st.BV(64, 4)), st.ZExt(nib, 64))
+	}
+	if !p.decide(all) {
+		return Tuple{st.BV(64, 0), p.newErrorString(mkStr("strconv: invalid syntax"))}, true
+	}
+	if bits < 64 && 4*len(bs) > bits {
+		if !p.decide(st.Cmp(OpUlt, val, st.BV(64, uint64(1)<<uint(bits)))) {
+			return Tuple{st.BV(64, uint64(1)<<uint(bits) - 1), p.newErrorString(mkStr("strconv: value out of range"))}, true
+		}
 	}
 	return Tuple{val, Iface{}}, true
 }
